@@ -162,6 +162,16 @@ class Series:
     def atan(self):
         return self.compose_taylor(lambda k: Fraction((-1) ** ((k - 1) // 2), k) if k % 2 else 0)
 
+    def exp(self):
+        return self.compose_taylor(lambda k: Fraction(1, factorial(k)))
+
+    def log(self):
+        """log of a series with constant term exactly 1"""
+        if self.coeff(0) != 1 or (self.c and self.val() < 0):
+            raise Unsupported("log of a series whose constant term is not 1")
+        u = self - 1
+        return u.compose_taylor(lambda k: Fraction((-1) ** (k + 1), k) if k else 0)
+
     def sqrt(self):
         if not self.c:
             raise Unsupported("sqrt of zero series")
